@@ -93,6 +93,15 @@ impl<T: Trace> GCWork<T::VM> for ProcessModBuf<T> {
     fn do_work(&mut self, worker: &mut GCWorker<T::VM>, mmtk: &'static MMTK<T::VM>) {
         // Process and scan modbuf only if the current GC is a nursery GC
         let gen = mmtk.get_plan().generational().unwrap();
+        #[cfg(mmtk_verif)]
+        crate::verif::emit(|| {
+            format!(
+                "\"ev\":\"ProcessModBuf\",\"n\":{},\"nursery\":{},\"objs\":{}",
+                self.modbuf.len(),
+                gen.is_current_gc_nursery(),
+                crate::verif::proj_addrs(self.modbuf.iter().map(|o| o.to_raw_address()))
+            )
+        });
         if gen.is_current_gc_nursery() {
             // Flip the per-object unlogged bits to "unlogged" state.
             for obj in &self.modbuf {
@@ -140,6 +149,15 @@ impl<T: Trace> ProcessRegionModBuf<T> {
 
 impl<T: Trace> GCWork<T::VM> for ProcessRegionModBuf<T> {
     fn do_work(&mut self, worker: &mut GCWorker<T::VM>, mmtk: &'static MMTK<T::VM>) {
+        #[cfg(mmtk_verif)]
+        crate::verif::emit(|| {
+            format!(
+                "\"ev\":\"ProcessRegionModBuf\",\"n\":{},\"nursery\":{},\"starts\":{}",
+                self.modbuf.len(),
+                mmtk.get_plan().generational().unwrap().is_current_gc_nursery(),
+                crate::verif::proj_addrs(self.modbuf.iter().map(|r| r.start()))
+            )
+        });
         // Scan modbuf only if the current GC is a nursery GC
         if mmtk
             .get_plan()
